@@ -48,7 +48,7 @@ PROP = Prop(
                  "a share scenario that never becomes quiescent because kgo's loopShareFetch spins while an ack timer is armed and nothing can be fetched "
                  "(goroutines created at a high rate under a loopShareFetch frame while no event is logged; <= 1 s in real time, endless under virtual time) is "
                  "inconclusive: verdict -, counted as scen.share.inconclusive-ack-timer-spin (about 0.5 % of scenarios); any other hang is C12.scenario-hang"],
-    partial="Only the pure half of C12 is covered by these ops. The range clause is proved at full strength (build_spec) since repair 5958f14; "
+    partial="Pure half (buildAckRanges): the range clause is proved at full strength (build_spec) since repair 5958f14; "
             "before it the ordering conjunct was false (finding ackranges-gaps-after-entries, regression kept in corpus/C12 and as an example). "
             "Protocol half: theorems state what every accepted history satisfies at each event in terms of the monitor's ledgers (stateAt); the ledgers are the "
             "specification of 'unsent decision', 'confirmed', 'open record', they are not derived from a model of the client.",
